@@ -9,7 +9,7 @@ from .eval import Unsupported, PY_EXC
 class Contract:
     def __init__(self, qual, params="", returns=None, requires=(), ensures=(), raises=None, may_raise=(), modifies=(),
                  loops=None, effects=(), trusted=None, pure=False, allocates=None, ensures_raise=None, ghost=None,
-                 exact_raises=True, props=(), yields=None, logs=(), defines=(), may_raise_if=None, inline_ok=False, fn_override=None, closure_env=None, notes=""):
+                 exact_raises=True, props=(), yields=None, logs=(), defines=(), may_raise_if=None, internal=(), inline_ok=False, fn_override=None, closure_env=None, notes=""):
         self.qual = qual
         self.params = parse_params(params)
         self.returns = returns
@@ -27,6 +27,7 @@ class Contract:
         self.exact_raises = exact_raises
         self.props = list(props)
         self.logs = list(logs)
+        self.internal = list(internal)     # postconditions proved for the function but phrased over its own ghosts: not exported to callers
         self.may_raise_if = may_raise_if      # condition (at entry) under which the may_raise exceptions can occur at all
         self.defines = list(defines)     # definitional clauses: assumed at call sites, not proof obligations (listed as trusted)
         self.yields = yields                        # element type of a generator's yielded values
@@ -262,7 +263,7 @@ class CallMixin:
         qual = fv.xs[1]
         c = self.contracts.get(qual)
         if c is None:
-            raise Unsupported(f"{self.where(node)}: call of a local closure {qual} (give it a contract)")
+            return self.inline_call(qual, args, kwargs, st, node, fn_mod=(fv.xs[2], fv.xs[0]), captured=dict(st.env))
         if c.params and c.params[0][0] == "__closure__":
             args = [V("ref", fv.t, cls="function")] + list(args)
         return self.apply_contract(c, args, kwargs, st, node)
@@ -343,12 +344,15 @@ class CallMixin:
             return InlineStub(key)
         return c
 
-    def inline_call(self, key, args, kwargs, st, node):
+    def inline_call(self, key, args, kwargs, st, node, fn_mod=None, captured=None):
         """symbolically execute an un-contracted repo function at the call site (bounded depth; loops get the trivial invariant)"""
-        try:
-            mod, fn = self.repo.function(key)
-        except Exception:  # noqa
-            raise Unsupported(f"{self.where(node)}: call of {key}, which has no contract in the sidecar and no source")
+        if fn_mod is not None:
+            mod, fn = fn_mod
+        else:
+            try:
+                mod, fn = self.repo.function(key)
+            except Exception:  # noqa
+                raise Unsupported(f"{self.where(node)}: call of {key}, which has no contract in the sidecar and no source")
         if self.inline_depth >= 6:
             raise Unsupported(f"{self.where(node)}: inlining depth exceeded at {key}")
         self.inlined.append((self.cur_fn, key))
@@ -364,6 +368,8 @@ class CallMixin:
         kw = {k: v for k, v in kwargs.items() if k not in ("*", "**")}
         defaults = list(a.defaults)
         dstart = len(names) - len(defaults)
+        if captured:
+            env.update(captured)        # a local closure reads the variables of its defining scope
         saved = (st.env, self.cur_fn, self.cur_mod, self.loop_ordinals, self.cur_contract, st.yielded)
         try:
             self.cur_mod = mod
